@@ -109,6 +109,18 @@ CHECKS["C13"] = {
     "assumptions": ["allocation is attributed by runtime/metrics deltas around the serialised decoder call", _SAMPLING],
 }
 
+CHECKS["C20"] = {
+    "level": "exploration",
+    "technique": _TECH + ": real ccb.Dial on the simulated network against scripted brokers and legitimate / rogue reverse connectors; arrival orders and reply-vs-connect races are seeded scheduler decisions; identity of every connection tracked",
+    "level_text": "Seeded exploration of schedules: the real ccb.Dial (standard reverse-connect mode and proxied/streaming mode; 1-3 brokers in shuffled order with the Happy-Eyeballs stagger timer on the virtual clock; real client handshakes with each broker through the dial hook; the ephemeral reverse listener through the listen hook) runs up to 3 times per run against scripted brokers (dead, or answering success / failure / nothing, after 0-3000 virtual ms, and having the target connect back legitimately, not at all, with a wrong id, with the id of an earlier request of the run, or with the id of another attempt of the same dial) and up to 3 rogue connectors per dial aimed at the ephemeral listener (wrong id, empty id, stale id, garbage bytes, immediate close, silent). Which of reply, legitimate connection and rogues arrives first is decided by the seeded scheduler. Every simulated connection records who opened it and what it presented. Oracle: a returned connection's far end presented the connect id generated for that very attempt (in standard mode: on that attempt's own listener; in proxied mode: the broker connection after the matching hello); every connection that presented anything else was closed by the dialer; a single broker's failure reply ends the dial with an error carrying its reason. Whether a losing legitimate connection is closed is counted, not judged.",
+    "level_note": "Brokers and connectors are scripted (real cedar server handshake for CCB_REQUEST, ccb.ReadControlAd/WriteControlAd/WriteReverseConnect for the messages). Nested multi-hop contacts and shared-port endpoints are not exercised.",
+    "budget": {"quick": 25, "thorough": 900},
+    "rule": "a case is one generated broker/connector configuration with 1-3 dials; distinct = distinct event-log hash (which includes the arrival order of every accept, reply and connection); non-trivial = the scheduler had a choice.",
+    "real": ["ccb.Dial (dialStandard, dialProxy, acceptReversed, proxyRequestOnStream, broker race)", "security client handshake with the broker", "stream/message framing"],
+    "stub": _SIM + ["scripted brokers and reverse connectors", "TCP dial and listen of the requester (verif hooks)"],
+    "assumptions": ["math/rand broker shuffle seeded per run", _SAMPLING],
+}
+
 CHECKS["C16"] = {
     "level": "exploration",
     "technique": _TECH + ": minter node and importer node with separate caches on the simulated network; generated mint options; real handshakes naming the session in both dial directions; virtual-time lifetime",
